@@ -111,3 +111,8 @@ def run(ctx):
                 if ".await" not in t[p0:]:
                     ctx.violation(RE, k + "|not-awaited", "a drain future over an operator input is built but never awaited in its template: the operator would emit before (or without) consuming "
                                   "its blocking input", "%s:%s" % (f, m["line"]))
+
+    if ctx.tier == "thorough":
+        # translation validation on a corpus of dfir_syntax! programs compiled with this tree's dfir_lang (never run)
+        import corpus
+        corpus.rules_c23(ctx)
